@@ -21,6 +21,7 @@ import (
 
 	"github.com/ARM-software/golang-utils/utils/filesystem"
 
+	"math"
 	"verifharness/internal/fsgate"
 	"verifharness/internal/hk"
 )
@@ -92,8 +93,13 @@ func build(entries []entry, scale int, prefix string, declaredBy map[string]int6
 		case "file":
 			name := fmt.Sprintf("%sf%d-%d.txt", dir, level, i)
 			data := bytes.Repeat([]byte{byte('a' + i)}, e.Actual*scale)
-			addRaw(w, name, data, uint64(e.Declared*scale))
-			declaredBy[filepath.Join(prefix, filepath.FromSlash(name))] = int64(e.Declared * scale)
+			if e.Declared > big { // the model's Overflow: a declared size of 2^63 bytes or more
+				addRaw(w, name, data, uint64(1)<<63+5)
+				declaredBy[filepath.Join(prefix, filepath.FromSlash(name))] = math.MaxInt64
+			} else {
+				addRaw(w, name, data, uint64(e.Declared*scale))
+				declaredBy[filepath.Join(prefix, filepath.FromSlash(name))] = int64(e.Declared * scale)
+			}
 		case "fakezip":
 			name := fmt.Sprintf("%sfake%d.zip", dir, i)
 			data := bytes.Repeat([]byte("not a zip "), e.Actual*scale/10)
